@@ -64,7 +64,9 @@ type Interp struct {
 	intrCache  map[*ssa.Function]intrinsicFn
 
 	// per-path state
-	ps *PathState
+	ps     *PathState
+	cur    *frame
+	curPos token.Pos
 }
 
 type PathState struct {
@@ -355,6 +357,9 @@ func (in *Interp) concretize(t *Term, max int, what string) int {
 // ---- runtime panics ----
 
 func (in *Interp) runtimePanic(msg string) {
+	if in.cur != nil {
+		msg += " [at " + in.where(in.cur, in.curPos) + "]"
+	}
 	// value of type runtime.errorString if available
 	if t := in.eng.runtimeErrorString; t != nil {
 		panic(targetPanic{v: iface{t, msg}, msg: "runtime error: " + msg})
@@ -529,6 +534,10 @@ func (in *Interp) runFrame(fr *frame) {
 			in.ps.steps++
 			if in.ps.steps > in.eng.maxSteps {
 				panic(pathEnd{"unwind", fmt.Sprintf("more than %d instructions on one path (in %s)", in.eng.maxSteps, fr.fn)})
+			}
+			in.cur = fr
+			if p := ins.Pos(); p != token.NoPos {
+				in.curPos = p
 			}
 			switch in.visit(fr, ins) {
 			case kReturn:
@@ -1071,6 +1080,11 @@ func (in *Interp) makeSlice(elem types.Type, ln, cp *Term) value {
 	in.check(c.Ule(cp, c.I64(maxElems)), "makeslice: cap out of range")
 	in.check(c.Ule(ln, cp), "makeslice: len out of range")
 	n := 0
+	if cp.isConst() && ln.isConst() && cp.val > 65536 && ln.val <= 4096 {
+		// capacity hint far above the length (e.g. make([]byte, 0, 4MiB)): model a smaller capacity.
+		// Only cap() observations differ; append re-allocates earlier than the real runtime would.
+		cp = c.I64(4096)
+	}
 	if cp.isConst() {
 		n = int(cp.val)
 		if n > in.eng.maxConcreteAlloc {
